@@ -28,6 +28,7 @@ func main() {
 	outp := flag.String("out", "", "transcript file (default stdout)")
 	curp := flag.String("cur", "", "file that always holds the operation being executed")
 	scale := flag.Int("n", 0, "scale override")
+	linesp := flag.String("lines", "", "file with operation lines (mode lines)")
 	flag.Parse()
 	initTypes()
 
@@ -113,6 +114,8 @@ func main() {
 		c.roundTrip(c.accepted("evolution", "leaf", "byvalue", "random"), n)
 	case "C17":
 		c.legacy(all)
+	case "lines":
+		c.runLines(*linesp)
 	case "C17child":
 		c.legacyChild(all)
 	case "C18":
